@@ -103,7 +103,7 @@ def run(ctx):
                             count=(variant == "both"), **kw)
 
     def compact_job():
-        return ctx.run_tool(binary, ["build-compact", "--n", "150", "--out", compact_file], timeout=600)
+        return ctx.run_tool(binary, ["build-compact", "--n", "150", "--out", compact_file], timeout=2400)
 
     with ThreadPoolExecutor(max_workers=9) as ex:
         cf = ex.submit(compact_job)
